@@ -79,5 +79,10 @@ ClassOf(ln) ==
   ELSE IF \E i \in 1..Len(ln.hs) : ln.hs[i].ht # ExpectedHT[ln.hs[i].cls] THEN "drift-handler-class"
   ELSE IF Len(ln.devs) < Len(ln.hs) THEN "grouped" ELSE "singletons"
 
-Final(tr) == {}
+\* a capability set is classified the same way whenever and in whatever company it is met - the trace may be the
+\* concatenation of several processes' runs, each meeting the sets in another order
+Final(tr) ==
+  LET norm == {k \in 1..Len(tr) : tr[k].ev = "norm"}
+      seen == UNION {{<<tr[i].hs[j].cls, tr[i].hs[j].ht>> : j \in 1..Len(tr[i].hs)} : i \in norm}
+  IN IF \A a, b \in seen : a[1] = b[1] => a[2] = b[2] THEN {} ELSE {"C20_OrderIndependent"}
 =============================================================================
